@@ -65,18 +65,29 @@ def sh(cmd, cwd=None, env=None, timeout=None, stdin=None):
 
 
 class Lock:
+    """flock on .work/<name>.lock, re-entrant within this process (nested `with Lock(name)` blocks share the outer lock)."""
+    _held = {}
+
     def __init__(self, name):
         os.makedirs(WORK, exist_ok=True)
+        self.name = name
         self.path = os.path.join(WORK, name + ".lock")
 
     def __enter__(self):
-        self.f = open(self.path, "w")
-        fcntl.flock(self.f, fcntl.LOCK_EX)
+        if Lock._held.get(self.name, 0) == 0:
+            self.f = open(self.path, "w")
+            fcntl.flock(self.f, fcntl.LOCK_EX)
+            Lock._file = getattr(Lock, "_file", {})
+            Lock._file[self.name] = self.f
+        Lock._held[self.name] = Lock._held.get(self.name, 0) + 1
         return self
 
     def __exit__(self, *a):
-        fcntl.flock(self.f, fcntl.LOCK_UN)
-        self.f.close()
+        Lock._held[self.name] -= 1
+        if Lock._held[self.name] == 0:
+            f = Lock._file.pop(self.name)
+            fcntl.flock(f, fcntl.LOCK_UN)
+            f.close()
 
 
 def write_if_changed(path, content):
@@ -195,6 +206,10 @@ class Ctx:
     def gen(self, name, content):
         """Write lean/Whv/Gen/<name>.lean (only if changed so lake does not rebuild needlessly)."""
         hdr = "-- GENERATED by /verif/check from /repo's working tree on every run. Do not edit.\n"
+        # remembered: prove() writes it again under the build lock, so that a concurrent run of another check (or of this one on a
+        # scratch tree) cannot slip its own Gen file in between this write and the build that has to see it
+        self.pending_gen = getattr(self, "pending_gen", {})
+        self.pending_gen[name] = hdr + content
         with Lock("lake"):
             changed = write_if_changed(os.path.join(LEAN, "Whv", "Gen", name + ".lean"), hdr + content)
         self.log("gen Whv/Gen/%s.lean %s" % (name, "(changed)" if changed else "(unchanged)"))
@@ -225,11 +240,25 @@ class Ctx:
         self.cov["obligations"] = len(names)
         self.cov["checker_cmd"] = "cd lean && lake build %s && lake env lean .work/%s.<pid>/Audit.lean (#print axioms per theorem)" % (mod, self.pid)
         drv = ["drv_" + f for f in families]
+        with Lock("lake"):
+            return self._prove_locked(mod, names, drv, extra_modules)
+
+    def _prove_locked(self, mod, names, drv, extra_modules):
+        # everything that has to see one consistent state of the shared lake workspace happens under the build lock: this run's
+        # Gen files, the build of the Props module and of the drivers, the axiom audit, and taking private copies of the driver
+        # binaries (drive() runs those, not the shared ones a concurrent build may relink)
+        for name, content in getattr(self, "pending_gen", {}).items():
+            write_if_changed(os.path.join(LEAN, "Whv", "Gen", name + ".lean"), content)
         rc, out = self.lake_build([mod] + list(extra_modules))
         if drv:
             rc2, out2 = self.lake_build(drv)
             if rc2 != 0:
                 self.broken.append(("tie", "driver-build", "lake build %s failed: %s" % (" ".join(drv), "; ".join(re.findall(r"error: ([^\n]*)", out2)[:5])[:600])))
+            else:
+                os.makedirs(os.path.join(self.work, "bin"), exist_ok=True)
+                for d in drv:
+                    if os.path.exists(os.path.join(BIN, d)):
+                        shutil.copy2(os.path.join(BIN, d), os.path.join(self.work, "bin", d))
         if rc != 0:
             # find which theorems failed, if the Props module itself is what broke
             errs = re.findall(r"error: ([^\n]*)", out)
@@ -316,7 +345,9 @@ class Ctx:
     # ---------------------------------------------------------------- driver
     def drive(self, family, cases_path, timeout=1800):
         """Pipe the harness' case file through the Lean driver; returns list of verdict lines."""
-        exe = os.path.join(BIN, "drv_" + family)
+        exe = os.path.join(self.work, "bin", "drv_" + family)
+        if not os.path.exists(exe):
+            exe = os.path.join(BIN, "drv_" + family)
         if not os.path.exists(exe):
             self.broken.append(("tie", "driver", "drv_%s binary missing (lake build failed?)" % family))
             return []
